@@ -1,9 +1,12 @@
 #!/bin/sh
-# Builds the framework from files on disk only (offline).
+# Builds the framework from files on disk only (offline). Every check rebuilds what it needs
+# from /repo's working tree anyway; this warms the caches so that the quick tier is quick.
 set -e
 cd "$(dirname "$0")"
 export CARGO_NET_OFFLINE=true
 mkdir -p work evidence replays
-(cd lean && lake build Comrak comrak_model)
-(cd harness && cargo build --offline --release)
+(cd lean && lake build)
+(cd harness && cargo build --offline --release && cargo build --offline)
+# the CLI binary for C16 (rebuilt from /repo on every C16 run; warmed here)
+(cd /repo && CARGO_TARGET_DIR=/verif/work/cli-target CARGO_PROFILE_DEV_DEBUG_ASSERTIONS=false CARGO_PROFILE_DEV_OVERFLOW_CHECKS=false cargo build --offline --bin comrak) || true
 echo "setup ok"
